@@ -309,13 +309,60 @@ func variants(depth int) []variant {
 					e2.f(s2)
 					return true
 				}()
-				if ok {
+				if ok && wellFormedInput(s2) {
 					out = append(out, variant{e.name + "+" + e2.name, s2})
 				}
 			}
 		}
 	}
 	return out
+}
+
+// wellFormedInput says whether a schema produced by two composed edits is one a service could report: type names
+// and the field names of a type are unique, and every named type that is referred to exists (two edits may add the
+// same type, or one may remove a type the other points a field at).
+func wellFormedInput(s *schema) bool {
+	names := map[string]bool{}
+	for _, t := range s.Types {
+		if names[t.Name] {
+			return false
+		}
+		names[t.Name] = true
+	}
+	leaf := func(t *tref) string {
+		for t != nil && t.OfType != nil {
+			t = t.OfType
+		}
+		if t == nil {
+			return ""
+		}
+		return t.Name
+	}
+	for _, t := range s.Types {
+		seen := map[string]bool{}
+		for _, f := range t.Fields {
+			if seen[f.Name] || !names[leaf(f.Type)] {
+				return false
+			}
+			seen[f.Name] = true
+			for _, a := range f.Args {
+				if !names[leaf(a.Type)] {
+					return false
+				}
+			}
+		}
+		for _, f := range t.InputFields {
+			if !names[leaf(f.Type)] {
+				return false
+			}
+		}
+		for _, p := range t.PossibleTypes {
+			if !names[p.Name] {
+				return false
+			}
+		}
+	}
+	return true
 }
 
 func toResult(s *schema) *federation.IntrospectionQueryResult {
